@@ -88,7 +88,9 @@ impl<'a> ContextType<'a> {
                 ContextType {
                     ty_prefix: "Arc",
                     cpp_type: "CArc<void>",
-                    clone_impl: Some("ret.instance = self->clone_fn(self->instance);"),
+                    clone_impl: Some(
+                        "if (self->clone_fn) ret.instance = self->clone_fn(self->instance);",
+                    ),
                     drop_impl: Some(
                         "if (self->drop_fn && self->instance) self->drop_fn(self->instance);",
                     ),
